@@ -769,7 +769,7 @@ class Ext:
             return r
         if isinstance(a, VDec) and isinstance(b, VDec):
             return VDec(z3.If(c, a.special, b.special), z3.If(c, a.sign, b.sign), z3.If(c, a.nd, b.nd),
-                        z3.If(c, a.exp, b.exp), z3.If(c, a.val, b.val))
+                        z3.If(c, a.exp, b.exp), z3.If(c, a.val, b.val), p10=z3.If(c, a.p10, b.p10))
         return VObj(z3.If(c, ex.box(a), ex.box(b)))
 
     def variant_decreases(self, ex, before, after):
